@@ -49,6 +49,12 @@ func SnapShotArgumentTypes(
 			GetValueT(ctx.GetFrame(), ctx.GetClass(), method, arg, ctx.IsDefineStatic)
 
 		if currentT != nil {
+			// what call sites passed is remembered for one round (see
+			// propagationForCalledTo), also for a parameter no call passes any more
+			if currentT.HasDefault() || currentT.IsInfferedFromCall() {
+				currentT.ExpireVariants(ctx.GetRound(), ctx.GetPreviousRound())
+			}
+
 			SaveArgumentSnapShot(ctx, method, arg, *currentT)
 		}
 	}
